@@ -43,9 +43,20 @@ type Genesis struct {
 	ForkEnabled bool
 	ForkHeight  int64
 	Validators  []int // indices into uni.ValKeys
+	ChainID     string // "" = apphist.ChainID
+}
+
+func (g Genesis) chainID() string {
+	if g.ChainID == "" {
+		return apphist.ChainID
+	}
+	return g.ChainID
 }
 
 func (g Genesis) String() string {
+	if g.ChainID != "" {
+		return fmt.Sprintf("gen{k=%v t=%d eon=%d fork=%v@%d vals=%v chain=%s}", g.Keypers, g.Threshold, g.InitialEon, g.ForkEnabled, g.ForkHeight, g.Validators, g.ChainID)
+	}
 	return fmt.Sprintf("gen{k=%v t=%d eon=%d fork=%v@%d vals=%v}", g.Keypers, g.Threshold, g.InitialEon, g.ForkEnabled, g.ForkHeight, g.Validators)
 }
 
@@ -95,7 +106,7 @@ func newApp(g Genesis) *app.ShutterApp {
 	for _, v := range g.Validators {
 		vals = append(vals, abcitypes.ValidatorUpdate{PubKey: pubkeyOf(uni.ValKeys[v]), Power: 10})
 	}
-	a.InitChain(abcitypes.RequestInitChain{ChainId: apphist.ChainID, AppStateBytes: b, Validators: vals})
+	a.InitChain(abcitypes.RequestInitChain{ChainId: g.chainID(), AppStateBytes: b, Validators: vals})
 	return a
 }
 
@@ -108,7 +119,7 @@ func newModel(g Genesis) *apphist.Model {
 	for _, v := range g.Validators {
 		gv[string(uni.ValKeys[v])] += 10
 	}
-	return apphist.NewModel(apphist.ChainID, keypers, uint64(g.Threshold), g.InitialEon, gv, g.ForkEnabled, g.ForkHeight)
+	return apphist.NewModel(g.chainID(), keypers, uint64(g.Threshold), g.InitialEon, gv, g.ForkEnabled, g.ForkHeight)
 }
 
 // ---------------------------------------------------------------------------
@@ -874,7 +885,7 @@ func (c *Chain) genTx(t *rapid.T) ([]byte, string) {
 		// a well-formed envelope (chain id, fresh nonce, signature) without the optional inner message
 		s := c.genSender(t)
 		n := c.nextNonce()
-		return uni.MakeTx(s, apphist.ChainID, n, nil), fmt.Sprintf("s%d/n%d/nomsg", s, n)
+		return uni.MakeTx(s, c.G.chainID(), n, nil), fmt.Sprintf("s%d/n%d/nomsg", s, n)
 	}
 	s := c.genSender(t)
 	msg, tag := c.genMessage(t, s)
@@ -912,7 +923,7 @@ func (c *Chain) genTx(t *rapid.T) ([]byte, string) {
 			s = rapid.SampledFrom(cand).Draw(t, "aimedSender")
 		}
 	}
-	chain := apphist.ChainID
+	chain := c.G.chainID()
 	if sel == 3 {
 		chain = "other-chain"
 		tag += "@wrongchain"
